@@ -86,6 +86,7 @@ func (s *Session) ioFail(st *State) string {
 func (s *Session) freshErrID() string {
 	id := s.declare(s.fresh("err"), "Int")
 	s.fact("(>= " + id + " 1000000)")
+	knownNonzero[id] = true
 	return id
 }
 
